@@ -231,3 +231,51 @@ r23_4.rule_id = "R23.4"
 
 RULES.append(r23_4)
 FLOORS["R23.4"] = 4
+
+
+def r23_5(ctx):
+    """publication records belong to the kernel (it unlinks and frees the records of exited threads in compact_list): a wait strategy keeps no
+    pointer / reference to a record or to one of its members beyond the call - nothing derived from the 'rec' parameter is stored into the
+    strategy object or into any other object that outlives the call"""
+    from sa.q import noepoch
+
+    def of_decl(sv, ds, depth=0):
+        """sv is, or is derived from, one of the declarations ds (a by-reference argument comes back as ('out', decl, callee, n))"""
+        if not isinstance(sv, tuple) or depth > 10:
+            return False
+        if sv[:1] in (("p",), ("out",)) and len(sv) >= 2 and sv[1] in ds:
+            return True
+        return any(of_decl(x, ds, depth + 1) for x in sv if isinstance(x, tuple))
+    n = 0
+    for F in ctx.db.funcs.values():
+        if not re.match(r"cds::algo::flat_combining::wait_strategy::\w+::(wait|notify|prepare|wakeup)$", F.q):
+            continue
+        recs = set(pr["d"] for pr in F.params if pr["n"] == "rec")
+        try:
+            ps = PathSim(F, bound=2000).run()
+        except Exception:
+            continue
+        seen = set()
+        for p in ps:
+            for e in p.events:
+                if e.kind != "store" or e.obj is None:
+                    continue
+                tgt = noepoch(e.obj)
+                # stores into the record itself are the strategy's job; locals are values, not (tracked) stores
+                if of_decl(tgt, recs):
+                    continue
+                key = id(e.node)
+                if key in seen:
+                    continue
+                seen.add(key)
+                n += 1
+                esc = e.val is not None and of_decl(noepoch(e.val), recs)
+                ctx.check(not esc, "R23.5", F, "a wait strategy stores nothing derived from the publication record outside that record", e.node,
+                          detail="%s receives %r: the record is unlinked and freed by compact_list() once its thread has exited - a pointer kept in the strategy "
+                          "dangles and is used by a later wakeup()/notify() (C23: 'reclaimed records of exited threads are not accessed afterwards')"
+                          % ("->".join(sv_field_path(e.obj)[-2:]) or repr(tgt), noepoch(e.val)), sig="record-escape")
+    if n < 2:
+        ctx.broken("wait strategy member stores not found (%d)" % n)
+r23_5.rule_id = "R23.5"
+RULES.append(r23_5)
+FLOORS["R23.5"] = 2
